@@ -1,5 +1,141 @@
-(** Properties/C09.v — placeholder while the correspondence is being validated *)
-From PintV Require Import Model.UC Model.Eval Model.Registry Model.Format.
+(** Properties/C09.v — every textual format denotes the unit exactly; plain-text formats
+    round-trip.  Only statements, each closed by [exact] of a lemma of Proofs/FormatProofs.v
+    (model: Model/Format.v; per-format parameters regenerated from the source by T7).
+
+    [qk] are the defect switches: [as_found] is pint as it stands (F18: '{:n}' rejects Fraction
+    exponents; F4: siunitx strips any prefix name), [repaired] has both switched off. *)
+From PintV Require Import Model.UC Model.Eval Model.Registry Model.Format Model.FormatRun
+  Proofs.UCProofs Proofs.FormatProofs Gen.DefaultDefs Gen.DefaultReg.
 Open Scope string_scope.
-Example C09_smoke : fmt_n (XInt 2) = Some "2".
+
+(** ** faithfulness at the layout level: names, exponents, numerator / denominator position *)
+(** for EVERY formatter parameterisation (as_ratio, single_denominator — hence D, C, P, H, L),
+    every sort function, every unit: the layout denotes exactly the unit *)
+Theorem C09_layout_denotes qk r as_ratio single sf (its : items) l :
+  items_wf its → "dimensionless" ∉ map fst its →
+  layout qk r as_ratio single false sf its = Ok l →
+  denoteL den_name l = uc_of its.
+Proof. exact (layout_denotes qk r as_ratio single sf its l). Qed.
+(** the same with '~' symbols (or any display function), read through any [den] that maps each
+    displayed string back to its unit — such a [den] exists iff the symbols are pairwise distinct *)
+Theorem C09_layout_denotes_symbols qk r as_ratio single short sf (its : items) disp den l :
+  items_wf its →
+  (∀ nx, nx ∈ its → display r short nx.1 = Ok (disp nx.1) ∧ den (disp nx.1) = {[ nx.1 := 1%Qc ]}) →
+  (its = [] → short = false → den "dimensionless" = ∅) →
+  layout qk r as_ratio single short sf its = Ok l →
+  denoteL den l = uc_of its.
+Proof. exact (layout_denotes_gen qk r as_ratio single short sf its disp den l). Qed.
+(** the five built-in [formatter(...)] parameterisations are of the form the theorem covers *)
+Example C09_builtin_params_parse :
+  ∀ f, f ≠ FRaw → f ≠ FLx → ∃ pp, parse_params (fp_of f) = Some pp.
+Proof. exact parse_params_builtin. Qed.
+
+(** ** plain formats round-trip (token level) *)
+(** D and C (as_ratio, no single denominator), integer exponents, ALL units: the token list the
+    printer emits — names, [**], numbers, [*], [/] — goes through the tree builder
+    ([Eval.build], the mirror of [_build_eval_tree]) and the ParserHelper algebra back to exactly
+    the container, with scale 1.
+    Full statement of the design also covers decimal exponents of at most 6 significant digits;
+    that part is checked by K (KBack cases) and the real round trip only. *)
+Theorem C09_plain_roundtrip_tokens_partial qk r sf (its : items) l :
+  items_wf its → its ≠ [] →
+  Forall (λ nx : string * expo, ∃ z, nx.2 = XInt z) its →
+  layout qk r true false false sf its = Ok l →
+  ph_from_tokens (layout_tokens qk l ++ [TEnd]) = Ok (PH 1 (uc_of its), false).
+Proof. exact (plain_roundtrip_tokens qk r sf its l). Qed.
+(** D and C are such parameterisations (regenerated parameters) *)
+Example C09_D_C_are_ratio_formats :
+  (fp_as_ratio fp_D, fp_single_denominator fp_D, fp_as_ratio fp_C, fp_single_denominator fp_C)
+  = (true, false, true, false).
 Proof. reflexivity. Qed.
+(** non-vacuity: a unit with positive and negative integer exponents, printed and parsed back *)
+Example C09_roundtrip_example :
+  let its := [("second", XInt (-2)); ("meter", XInt 3); ("kelvin", XInt (-1)); ("gram", XInt 1)] in
+  items_wf its
+  ∧ full_format_unit as_found empty_reg (FCfg "" None SortUnitName) "" its
+    = Ok "gram * meter ** 3 / kelvin / second ** 2"
+  ∧ full_format_unit as_found empty_reg (FCfg "" None SortUnitName) "C" its
+    = Ok "gram*meter**3/kelvin/second**2"
+  ∧ match layout as_found empty_reg true false false SortUnitName its with
+    | Ok l => match ph_from_tokens (layout_tokens as_found l ++ [TEnd]) with
+              | Ok (p, fl) => uc_eqb (ph_d p) (uc_of its) && bool_decide (ph_scale p = 1%Qc) && negb fl
+              | Err _ => false end
+    | Err _ => false end = true.
+Proof.
+  split; [split; [apply (bool_decide_unpack _); vm_compute; exact I | repeat constructor; vm_compute; discriminate]|].
+  repeat split; vm_compute; reflexivity.
+Qed.
+
+(** ** siunitx *)
+(** refuted as found (F4): [decade] is rendered [\deca\de], and [\de] is no unit *)
+Theorem C09_siunitx_denotes_refuted :
+  ∃ its, items_wf its ∧ Forall (λ nx : string * expo, is_unit_name default_reg nx.1 = true) its
+         ∧ siunitx_format_unit as_found default_reg its = "\deca\de"
+         ∧ si_denote as_found default_reg its = None.
+Proof. exact siunitx_denotes_refuted. Qed.
+(** guarded: whenever the split of every name is sound ([si_ok], a boolean the model computes)
+    the macros denote the unit *)
+Theorem C09_siunitx_denotes_guarded qk r its :
+  (∀ nx, nx ∈ its → si_ok qk r nx.1 = true) → si_denote qk r its = Some (uc_of its).
+Proof. exact (si_denote_guarded qk r its). Qed.
+(** the guard holds for every unit name that no prefix name is a prefix of … *)
+Theorem C09_siunitx_guard_no_prefix qk r name :
+  is_unit_name r name = true → no_prefix_name r name = true → si_ok qk r name = true.
+Proof. exact (si_ok_no_prefix qk r name). Qed.
+(** … and, with the defect switched off, for every unit name *)
+Theorem C09_siunitx_repaired r name : is_unit_name r name = true → si_ok repaired r name = true.
+Proof. exact (si_ok_repaired r name). Qed.
+Example C09_siunitx_guard_nonvacuous :
+  si_ok as_found default_reg "meter" = true ∧ si_ok as_found default_reg "decade" = false
+  ∧ si_ok repaired default_reg "decade" = true
+  ∧ no_prefix_name default_reg "second" = true.
+Proof. repeat split; vm_compute; reflexivity. Qed.
+
+(** ** '~' round trip *)
+(** refuted (F19): centiday ↦ "cd", which the registry reads as candela *)
+Theorem C09_short_roundtrip_refuted :
+  ∃ its, items_wf its
+         ∧ Forall (λ nx : string * expo, ∃ d, resolve default_reg nx.1 = Ok d ∧ u_name d = nx.1) its
+         ∧ full_format_unit as_found default_reg (FCfg "" None SortUnitName) "~" its = Ok "cd"
+         ∧ back as_found default_reg FD true its = Ok {[ "candela" := 1%Qc ]}
+         ∧ uc_of its ≠ {[ "candela" := 1%Qc ]}.
+Proof. exact short_roundtrip_refuted. Qed.
+
+(** ** formatting never fails *)
+(** on a valid unit (names resolvable when symbols are requested) whose exponents the number
+    formatter accepts; with F18 switched off that is every unit *)
+Theorem C09_format_total qk r c spec its :
+  let uspec := if String.eqb spec "" then c_default c else spec in
+  get_formatter uspec ≠ FRaw →
+  Forall (λ nx : string * expo, x_renderable qk nx.2 = true) its →
+  (str_contains "~" uspec = true → Forall (λ nx : string * expo, ∃ d, resolve r nx.1 = Ok d) its) →
+  ∃ s, full_format_unit qk r c spec its = Ok s.
+Proof. exact (format_unit_total qk r c spec its). Qed.
+Theorem C09_format_total_repaired x : x_renderable repaired x = true.
+Proof. exact (x_renderable_repaired x). Qed.
+(** refuted as found (F18): Fraction exponents other than ±1 *)
+Theorem C09_format_total_refuted :
+  ∃ its, items_wf its ∧
+    full_format_unit as_found empty_reg (FCfg "" None SortUnitName) "" its = Err EValue.
+Proof. exact format_total_refuted. Qed.
+
+(** ** spec splitting *)
+(** on specs where the sequential [str.replace] passes of [remove_custom_flags] agree with the
+    single regex scan of [extract_custom_flags] ([flags_regular], e.g. every
+    "<magnitude spec><flags>" or "<flags><magnitude spec>"), magnitude part and unit part partition
+    the characters, the unit part consists of flags only *)
+Theorem C09_split_format_partition spec sep :
+  flags_regular spec = true →
+  chars ((split_format spec "" sep).1 ++ (split_format spec "" sep).2) ≡ₚ chars spec
+  ∧ flags_concat (known_flags ++ ["~"])%list (split_format spec "" sep).2
+  ∧ (split_format spec "" sep).1 = remove_custom_flags spec.
+Proof. exact (split_format_partition spec sep). Qed.
+Theorem C09_split_format_partition_refuted :
+  ∃ spec, flags_regular spec = false ∧ split_format spec "" (Some true) = ("", "Lraw")
+          ∧ String.length spec = 5%nat.
+Proof. exact split_format_partition_refuted. Qed.
+Example C09_split_nonvacuous :
+  flags_regular ".3f~P" = true ∧ split_format ".3f~P" "" None = (".3f", "~P")
+  ∧ flags_regular "Lx+.2e~" = true ∧ split_format "Lx+.2e~" "" (Some true) = ("+.2e", "Lx~")
+  ∧ split_format "" ".1f~L" (Some false) = (".1f", "~L").
+Proof. repeat split; vm_compute; reflexivity. Qed.
